@@ -25,6 +25,7 @@
 #include <tbox/base/wrapped_recorder.h>
 
 #include "timer_event_impl.h"
+#include <tbox/base/verif_hook.h>
 
 namespace tbox {
 namespace event {
@@ -32,6 +33,13 @@ namespace event {
 namespace {
 uint64_t GetCurrentSteadyClockMilliseconds()
 {
+#ifdef CPP_TBOX_VERIF
+    {
+        uint64_t verif_ms = 0;
+        if (verif::Hooks().steady_ms != nullptr && verif::Hooks().steady_ms(verif_ms))
+            return verif_ms;
+    }
+#endif
     return std::chrono::duration_cast<std::chrono::milliseconds> \
         (std::chrono::steady_clock::now().time_since_epoch()).count();
 }
